@@ -14,8 +14,8 @@
    the sort comparator) | Unmodelled (text the model does not claim to
    predict: hexadecimal floats with a p exponent, strings that could be
    RFC3339 timestamps on the left of a comparison operator). *)
-From Coq Require Import List NArith ZArith Bool.
-From YQ Require Import Base.Str.
+From Coq Require Import List NArith ZArith QArith Bool.
+From YQ Require Import Base.Str Spec.Order.
 Import ListNotations.
 Open Scope Z_scope.
 
@@ -106,7 +106,8 @@ Definition wrap64 (z : Z) : Z := (z + two63) mod two64 - two63.
 (* ------------------------------------------------------------------ *)
 Inductive fval := FNaN | FInf (neg : bool) | FFin (fx : Z).
 
-Definition fx_scale : Z := 2 ^ 1074.
+Definition fx_pos : positive := (2 ^ 1074)%positive.
+Definition fx_scale : Z := Z.pos fx_pos.
 
 (* round m * 10^k (m > 0) to nearest-even binary64; overflow is ErrRange *)
 Definition round_fx (neg : bool) (m k : Z) : outcome fval :=
@@ -125,7 +126,7 @@ Definition round_fx (neg : bool) (m k : Z) : outcome fval :=
             else if den <? 2 * r then q + 1
             else if Z.even q then q else q + 1 in
   let v := rq * 2 ^ (e + 1074) in
-  if 2 ^ (1024 + 1074) <=? v then Err
+  if 2 ^ 1024 * fx_scale <=? v then Err
   else Ok (FFin (if neg then - v else v)).
 
 (* readFloat's mantissa loop: returns (rest, sawdigits, underscores, mantissa, digits after the dot) *)
@@ -517,3 +518,101 @@ Fixpoint json_of (t : tree) : str :=
   end.
 
 Definition run_sort_keys (t : tree) : str := json_of (sort_keys_rec t).
+
+(* ------------------------------------------------------------------ *)
+(* Denotation of a scalar in Spec/Order.v and the consistent domain D  *)
+(* (definitions used by the statements of Props/C15.v)                 *)
+(* ------------------------------------------------------------------ *)
+Definition den (x : scalar) : option value :=
+  match s_tag x with
+  | TNull => Some VNull
+  | TBool => Some (VBool (truthy (s_text x)))
+  | TInt => match parse_int64 (s_text x) with Some z => Some (VNum (inject_Z z)) | None => None end
+  | TFloat => match parse_float (s_text x) with Ok (FFin fx) => Some (VNum (Qmake fx fx_pos)) | _ => None end
+  | TStr => Some (VStr (s_text x))
+  end.
+
+(* total version; only meaningful where [den] is defined *)
+Definition vden (x : scalar) : value := match den x with Some v => v | None => VNull end.
+
+(* the text of an !!int scalar, read by ParseFloat, is exactly the integer *)
+Definition int_reads_exact (x : scalar) : bool :=
+  match parse_int64 (s_text x), parse_float (s_text x) with
+  | Some z, Ok (FFin fx) => fx =? z * fx_scale
+  | _, _ => false
+  end.
+
+Definition is_some {A : Type} (o : option A) : bool := match o with Some _ => true | None => false end.
+
+(* D, pairwise: both scalars denote; two nulls are spelled alike; the
+   difference of two ints fits in int64; an int next to a float reads
+   exactly as a float; a number never meets a string. *)
+Definition pair_ok (a b : scalar) : bool :=
+  is_some (den a) && is_some (den b) &&
+  match s_tag a, s_tag b with
+  | TNull, TNull => str_eqb (s_text a) (s_text b)
+  | TNull, _ | _, TNull => true
+  | TBool, _ | _, TBool => true
+  | TInt, TInt =>
+      match parse_int64 (s_text a), parse_int64 (s_text b) with
+      | Some x, Some y => (- two63 <=? x - y) && (x - y <? two63)
+      | _, _ => false
+      end
+  | TInt, TFloat => int_reads_exact a
+  | TFloat, TInt => int_reads_exact b
+  | TFloat, TFloat => true
+  | TStr, TStr => true
+  | _, _ => false
+  end.
+
+(* the sign of the sort comparator's answer *)
+Definition cmp_sign (a b : scalar) : option comparison :=
+  match cmp a b with Ok z => Some (z ?= 0) | _ => None end.
+
+Definition is_lt (c : comparison) : bool := match c with Lt => true | _ => false end.
+
+Definition elem_vals (e : elem) : list value := map vden (e_keys e).
+
+(* the spec order on elements, and the strict part as a boolean *)
+Definition elem_cmp (a b : elem) : comparison := keys_cmp (elem_vals a) (elem_vals b).
+Definition elem_lt (a b : elem) : bool := is_lt (elem_cmp a b).
+
+(* a sequence is consistent when every two key scalars occurring in it are a D pair (both ways round) *)
+Definition consistent (l : list elem) : Prop :=
+  forall a b, In a l -> In b l -> forall x y, In x (e_keys a) -> In y (e_keys b) -> pair_ok x y = true.
+
+(* where the four operators are defined and claimed to agree with the order *)
+Definition ops_ok (a b : scalar) : bool :=
+  is_some (den a) && is_some (den b) &&
+  match s_tag a, s_tag b with
+  | TInt, TInt => true
+  | TInt, TFloat => int_reads_exact a
+  | TFloat, TInt => int_reads_exact b
+  | TFloat, TFloat => true
+  | TStr, TStr => negb (maybe_rfc3339 (s_text a))
+  | TNull, TNull => true
+  | _, _ => false
+  end.
+
+Definition op_spec (or_equal greater : bool) (c : comparison) : bool :=
+  match c with Eq => or_equal | Lt => negb greater | Gt => greater end.
+
+(* paths into a tree, for the statement about sort_keys *)
+Inductive step := SKey (k : str) | SIdx (n : nat).
+
+Fixpoint lookup {V : Type} (k : str) (es : list (str * V)) : option V :=
+  match es with
+  | [] => None
+  | (k', v) :: r => if str_eqb k k' then Some v else lookup k r
+  end.
+
+Fixpoint get (p : list step) (t : tree) : option tree :=
+  match p with
+  | [] => Some t
+  | SKey k :: p' => match t with TMap es => match lookup k es with Some v => get p' v | None => None end | _ => None end
+  | SIdx n :: p' => match t with TSeq l => match nth_error l n with Some v => get p' v | None => None end | _ => None end
+  end.
+
+(* no map anywhere in the tree has a repeated key *)
+Definition unique_keys (t : tree) : Prop :=
+  forall p es, get p t = Some (TMap es) -> NoDup (map fst es).
